@@ -147,6 +147,7 @@ pub fn run(ctx: &mut Ctx) {
             fam::exhaustive(ctx, "iter", &cfgs, l, false, &fam::iter_ops);
             fam::exhaustive(ctx, "range", &cfgs, l, false, &fam::range_ops);
             crate::special::c14_large(ctx);
+            scale(ctx);
         }
         "C05" => {
             use hvcore::rigapi::MemKind;
